@@ -17,6 +17,7 @@ package core
 
 import (
 	"context"
+	"encoding/json"
 	"fmt"
 	"sort"
 	"strings"
@@ -175,15 +176,17 @@ func (b *recBackend) HandleRequest(ctx context.Context, req *logical.Request) (*
 		b.st.Issued = append(b.st.Issued, id)
 		b.st.mu.Unlock()
 		ttl := 3600 * time.Second
-		if v, ok := req.Data["ttl"]; ok {
-			if d, ok := v.(int); ok {
-				ttl = time.Duration(d) * time.Second
-			}
+		if d, ok := intField(req.Data, "ttl"); ok {
+			ttl = time.Duration(d) * time.Second
+		}
+		var maxTTL time.Duration
+		if d, ok := intField(req.Data, "max_ttl"); ok {
+			maxTTL = time.Duration(d) * time.Second
 		}
 		resp := &logical.Response{
 			Data: map[string]interface{}{"id": id, "password": "CANARY-" + id},
 			Secret: &logical.Secret{
-				LeaseOptions: logical.LeaseOptions{TTL: ttl, Renewable: true},
+				LeaseOptions: logical.LeaseOptions{TTL: ttl, MaxTTL: maxTTL, Renewable: true},
 				InternalData: map[string]interface{}{"id": id, "secret_type": "rec"},
 			},
 		}
@@ -202,6 +205,18 @@ func (b *recBackend) HandleRequest(ctx context.Context, req *logical.Request) (*
 		}
 		if p, ok := req.Data["policies"].([]string); ok {
 			auth.Policies = p
+		}
+		if d, ok := intField(req.Data, "ttl"); ok {
+			auth.TTL = time.Duration(d) * time.Second
+		}
+		if d, ok := intField(req.Data, "max_ttl"); ok {
+			auth.MaxTTL = time.Duration(d) * time.Second
+		}
+		if d, ok := intField(req.Data, "period"); ok {
+			auth.Period = time.Duration(d) * time.Second
+		}
+		if d, ok := intField(req.Data, "explicit_max_ttl"); ok {
+			auth.ExplicitMaxTTL = time.Duration(d) * time.Second
 		}
 		return &logical.Response{Auth: auth}, nil
 	}
@@ -231,4 +246,19 @@ func (b *recBackend) kv(ctx context.Context, req *logical.Request) (*logical.Res
 		return logical.ListResponse(ks), nil
 	}
 	return nil, logical.ErrUnsupportedOperation
+}
+
+func intField(m map[string]interface{}, k string) (int, bool) {
+	switch v := m[k].(type) {
+	case int:
+		return v, true
+	case int64:
+		return int(v), true
+	case float64:
+		return int(v), true
+	case json.Number:
+		n, err := v.Int64()
+		return int(n), err == nil
+	}
+	return 0, false
 }
